@@ -59,7 +59,7 @@ CLAIMED = {
             "partitionable threefry, observed by the harness); distinct terms = independent streams is the PRNG idealisation (JAX's contract), not proved; harness/worker_seed.py maps raw key "
             "data back to terms by BFS over real split/fold_in. No axioms.",
             "Coq proof over a mini-Jaxpr model + outcome-class correspondence (vm_compute)", "7/C14"),
-    "C19": ("Theorem C19_state_collects: for EVERY program of named/leaf-mode saves, namespaces, scans (nested, under namespaces), vmaps and deterministic code, the State interpreter "
+    "C19": ("Theorem C19_state_collects: for EVERY program of named/leaf-mode saves, namespaces, scans (forward or reverse, nested, under namespaces), vmaps and deterministic code, the State interpreter "
             "(flat equation list + namespace stack + fresh interpreter per scan body + leafwise stacking + merge at the current namespace) collects exactly the specification's dictionary "
             "and restores the namespace stack (structural induction over programs); a save is found under path/name, later writes win, other names are untouched. Transparency "
             "(state does not change the result) and jit/seed are checked by the correspondence only. Saves inside cond are outside the claim.",
@@ -145,7 +145,7 @@ CLAIMED = {
             "Unbiasedness (C12_systematic_unbiased_on_grid): over the uniform grid of c*sum(w) offsets the copies of particle i sum to c*N*w_i, for every weight vector, N and resolution c "
             "(the continuous expectation is the limit of these exact Riemann averages, not itself mechanised).",
             "Trusted: Coq kernel; hand model coq/Model/Resample.v of systematic_resample/resample_vectorized_trace/resample/log_marginal_likelihood over exact integers/rationals; "
-            "correspondence harness/worker_resample.py scripts the offset (monkeypatching smc.uniform), skips exact float ties, compares indices exactly and lml within 5e-5; "
+            "correspondence harness/worker_resample.py scripts the offset (monkeypatching smc.uniform), skips exact float ties (the total weight is not one: offsets at the ends of (0,1) are scripted on weight vectors whose float32 cumulative sum ends below 1, and every index must name an input particle), compares indices exactly and lml within 5e-5; the float32 cumulative sum itself is modelled (exact arithmetic), not verified; "
             "the diagnostic-weight clause is compared in the harness with tolerance 1e-5. No axioms.",
             "Coq proof (counting argument over all offsets) + differential correspondence (vm_compute)", "7/C12"),
     "C18": ("Theorems for ANY kernel, any per-step randomness, all n_steps/burn_in/thinning>=1: traces[i] = state after burn+i*thin+1 kernel applications, accepts[i] = that step's flag, "
